@@ -3,6 +3,7 @@ import SdJwt.Exec.Sha2
 import SdJwt.Exec.Base64
 import SdJwt.Impl.Outcome
 import SdJwt.Impl.Restore
+import SdJwt.Impl.Codec
 import SdJwt.Spec.Marked
 /-!
 Executable-only: line protocol helpers, byte-level hashing/decoding used to instantiate
@@ -56,19 +57,25 @@ def hashBytes (alg : String) (b : ByteArray) : Option ByteArray :=
   else if alg = "sha-512" then some (sha512 b)
   else none
 
-/-- `base64_hash(alg, s)`; unknown algorithm names hash to "" (callers check the name first) -/
-def b64Hash (alg : String) (s : String) : String :=
-  match hashBytes alg s.toUTF8 with
-  | some h => b64Enc h
-  | none => ""
+/-- the byte level below base64url, as the driver runs it: compact JSON text, `String.fromUTF8?` +
+`Lean.Json`, the SHA-2 of `Exec/Sha2`; unknown algorithm names hash to no bytes (callers check the
+name first) -/
+def codec : Impl.Codec :=
+  { render := fun j => (printJ 0 j).toUTF8.toList
+    parse := fun bs =>
+      match String.fromUTF8? (ByteArray.mk bs.toArray) with
+      | none => none
+      | some txt => parseJ txt
+    sha := fun alg bs =>
+      match hashBytes alg (ByteArray.mk bs.toArray) with
+      | some h => h.toList
+      | none => [] }
 
-def decodeDisc (s : String) : Option J :=
-  match b64Dec s with
-  | none => none
-  | some bytes =>
-    match String.fromUTF8? bytes with
-    | none => none
-    | some txt => parseJ txt
+/-- `base64_hash(alg, s)` — the model's `Codec.hash` -/
+def b64Hash (alg : String) (s : String) : String := codec.hash alg s
+
+/-- base64url, UTF-8, JSON text — the model's `Codec.decodeDisc` -/
+def decodeDisc (s : String) : Option J := codec.decodeDisc s
 
 def envFor (alg : String) : Impl.Env := { hash := b64Hash alg, decodeDisc := decodeDisc }
 
